@@ -56,6 +56,9 @@ Observe == /\ pc = "done" /\ l = 1 /\ T.kind = "build"
            /\ Require(BadW = {}, T.id, "Weights", l, [rows |-> BadW])
            /\ Require(ObservedLookAhead = {}, T.id, "NoLookAhead", l, [cells |-> ObservedLookAhead])
            /\ Require(RequirementOK, T.id, "Requirement", l, <<>>)
+           \* the same call on a series of half-integers with the exogenous features held in a narrower dtype (integers,
+           \* float32) gives the same table as with float64 features: the lags are values of the SERIES
+           /\ Require(T.series_kept, T.id, "LagsAreSeriesValues", l, <<>>)
            /\ Accepted(T.id)
            /\ l' = 2 /\ UNCHANGED <<vars, tid>>
 
